@@ -108,3 +108,148 @@ def gen_physical(seed, n):
         yield {"k": "ring", "tf": t, "B": fx(B), "Bp": fx(Bp), "dU": fx(dU), "a": fx(a), "b": fx(b), "sB": fx(math.sin(math.radians(B)))}
         lo, bo, lp, bp, lt, bt = [float(v) for v in Moon.moon_librations(Epoch(t))]
         yield {"k": "libr", "tf": t, "lo": fx(lo), "bo": fx(bo), "lp": fx(lp), "bp": fx(bp), "lt": fx(lt), "bt": fx(bt)}
+
+
+def _unit(lon, lat):
+    a, d = math.radians(lon), math.radians(lat)
+    return [math.cos(d) * math.cos(a), math.cos(d) * math.sin(a), math.sin(d)]
+
+
+def gen_statics(seed, n):
+    """static helpers of Angle / Epoch / base"""
+    from pymeeus.Angle import Angle
+    from pymeeus.Epoch import Epoch
+    from pymeeus import base
+    rng = random.Random("stat/%s" % seed)
+    for _ in range(n):
+        x = rng.choice([rng.uniform(-400, 400), rng.uniform(-1e6, 1e6), float(rng.randrange(-720, 721)), rng.randrange(-720, 720) + 0.5])
+        d, m, s, sg = Angle.deg2dms(x)
+        rd = Angle.reduce_deg(x)
+        yield {"k": "stat", "xf": x, "x": fx(x), "d": int(d) if d == int(d) else -1, "m": int(m) if m == int(m) else -1, "s": fx(s),
+               "sg": int(sg), "rd": fx(rd), "back": fx(Angle.dms2deg(d * sg, m * sg, s * sg))}
+        y = rng.choice([rng.randrange(-4712, 6001), 1582, 1600, 1700, 1900, 2000, 100, 0, -4, -100])
+        mo, dy = rng.randrange(1, 13), rng.randrange(1, 29)
+        if y == 1582 and rng.random() < 0.7:
+            mo, dy = 10, rng.choice([1, 4, 5, 10, 14, 15, 16])
+        jd = rng.choice([rng.uniform(0, 5.4e6), 2299160.5 + rng.choice([-1.0, -1e-6, 0.0, 1e-6, 1.0])])
+        yield {"k": "cal", "y": y, "m": mo, "d": dy, "leap": int(bool(Epoch.is_leap(y))), "jul": int(bool(Epoch.is_julian(y, mo, dy))),
+               "jdf": jd, "jd": fx(jd), "ejul": int(bool(Epoch(jd).julian()))}
+        nn = rng.choice([rng.randrange(0, 2000), rng.randrange(0, 130)])
+        yield {"k": "ord", "n": nn, "suf": base.get_ordinal_suffix(nn)}
+        v = rng.choice([rng.uniform(-1e6, 1e6), float(rng.randrange(-50, 50)), rng.randrange(-50, 50) + 0.5])
+        yield {"k": "iint", "vf": v, "v": fx(v), "i": int(base.iint(v))}
+
+
+def gen_elements(seed, n):
+    from pymeeus.Epoch import Epoch
+    from pymeeus.Moon import Moon
+    from pymeeus.Saturn import Saturn
+    rng = random.Random("elem/%s" % seed)
+    planets = ["Mercury", "Venus", "Earth", "Mars", "Jupiter", "Saturn", "Uranus", "Neptune"]
+    for _ in range(n):
+        pl = rng.choice(planets)
+        cls = getattr(__import__("pymeeus." + pl, fromlist=[pl]), pl)
+        t = rng.uniform(2451545.0 - 20 * 36525.0, 2451545.0 + 20 * 36525.0)
+        e = Epoch(t)
+        J = [float(v) for v in cls.orbital_elements_j2000(e)]
+        M = [float(v) for v in cls.orbital_elements_mean_equinox(e)]
+        yield {"k": "elem", "pl": pl, "tf": t, "T": fx((t - 2451545.0) / 36525.0), "J": [fx(v) for v in J], "M": [fx(v) for v in M]}
+        tn, mn = float(Moon.longitude_true_ascending_node(e)), float(Moon.longitude_mean_ascending_node(e))
+        yield {"k": "mnode", "tf": t, "tn": fx(tn), "mn": fx(mn)}
+        yield {"k": "ringel", "tf": t, "inc": fx(float(Saturn.ring_inclination(e))), "n0": fx(float(Saturn.ring_logitude_ascending_node(e))),
+               "n1": fx(float(Saturn.ring_logitude_ascending_node(Epoch(t + 36525.0))))}
+
+
+def gen_geometry(seed, n):
+    from pymeeus.Angle import Angle
+    from pymeeus.Epoch import Epoch
+    from pymeeus.Earth import Earth
+    from pymeeus import Coordinates as C
+    rng = random.Random("geom/%s" % seed)
+    A = Angle
+    for _ in range(n):
+        H, dec, phi = rng.uniform(1, 179), rng.uniform(-80, 80), rng.uniform(-80, 80)
+        q1, q2 = float(C.parallactic_angle(A(H), A(dec), A(phi))), float(C.parallactic_angle(A(-H), A(dec), A(phi)))
+        yield {"k": "paral", "in": [H, dec, phi], "q1": fx(q1), "q2": fx(q2)}
+        th, eps = rng.uniform(0, 360), rng.uniform(22, 24.5)
+        phi2 = rng.uniform(-60, 60)
+        l1, l2, inc = C.ecliptic_horizon(A(th), A(phi2), A(eps))
+        ra, de = C.ecliptical2equatorial(l1, A(0.0), A(eps))
+        az, el = C.equatorial2horizontal(A(th) - ra, de, A(phi2))
+        yield {"k": "eclhor", "in": [th, phi2, eps], "l1": fx(float(l1)), "l2": fx(float(l2)), "inc": fx(float(inc)), "el": fx(float(el))}
+        d2, p2 = rng.uniform(-23, 23), rng.uniform(-60, 60)
+        yield {"k": "dph", "in": [d2, p2], "j": fx(float(C.diurnal_path_horizon(A(d2), A(p2)))), "jm": fx(float(C.diurnal_path_horizon(A(-d2), A(p2)))),
+               "j0": fx(float(C.diurnal_path_horizon(A(0.0), A(p2)))), "phi": fx(p2)}
+        # two bodies crossing: positions at three times, separation at the tabular times
+        a0, d0 = rng.uniform(20, 340), rng.uniform(-50, 50)
+        va, vd, off = rng.uniform(0.2, 1.0), rng.uniform(-0.5, 0.5), rng.uniform(0.05, 0.5)
+        P1 = [(a0 + va * k, d0 + vd * k) for k in (-1, 0, 1)]
+        P2 = [(a0 + 0.3 * va * k + 0.2 * off, d0 - 0.4 * vd * k + off) for k in (-1, 0, 1)]
+        seps = [float(C.angular_separation(A(P1[i][0]), A(P1[i][1]), A(P2[i][0]), A(P2[i][1]))) for i in range(3)]
+        try:
+            nmin, dmin = C.minimum_angular_separation(A(P1[0][0]), A(P1[0][1]), A(P1[1][0]), A(P1[1][1]), A(P1[2][0]), A(P1[2][1]),
+                                                      A(P2[0][0]), A(P2[0][1]), A(P2[1][0]), A(P2[1][1]), A(P2[2][0]), A(P2[2][1]))
+            yield {"k": "minsep", "in": [a0, d0, va, vd, off], "seps": [fx(v) for v in seps], "n": fx(float(nmin)), "dmin": fx(float(dmin)), "oc": "ok"}
+        except Exception as ex:
+            yield {"k": "minsep", "in": [a0, d0, va, vd, off], "seps": [fx(v) for v in seps], "n": BAD, "dmin": BAD, "oc": type(ex).__name__}
+        om, q = rng.uniform(0, 360), rng.uniform(0.2, 10.0)
+        T = Epoch(2451545.0 + rng.uniform(-3000, 3000))
+        ta, ra_ = C.passage_nodes_parabolic(A(om), q, T, ascending=True)
+        td, rd_ = C.passage_nodes_parabolic(A(om), q, T, ascending=False)
+        yield {"k": "parab", "in": [om, q], "q": fx(q), "ra": fx(ra_), "rd": fx(rd_), "cw": fx(math.cos(math.radians(om))),
+               "dta": fx(ta.jde() - T.jde()), "dtd": fx(td.jde() - T.jde())}
+        lat = rng.uniform(-90, 90)
+        e = Earth()
+        yield {"k": "rho", "in": [lat], "rho": fx(float(e.rho(A(lat)))),
+               "rs": fx(e.rho_sinphi(A(lat), 0.0)), "rc": fx(e.rho_cosphi(A(lat), 0.0))}
+        ra0, de0 = rng.uniform(0, 360), rng.uniform(-80, 80)
+        pma, pmd = rng.uniform(-1e-4, 1e-4), rng.uniform(-1e-4, 1e-4)
+        eps2 = rng.uniform(22, 24.5)
+        lam, bet = C.equatorial2ecliptical(A(ra0), A(de0), A(eps2))
+        pl_, pb_ = C.p_motion_equa2eclip(A(pma), A(pmd), A(ra0), A(de0), bet, A(eps2))
+        yield {"k": "pm", "in": [ra0, de0, pma, pmd, eps2], "pma": fx(math.radians(pma) * 1e6), "pmd": fx(math.radians(pmd) * 1e6), "pml": fx(float(pl_) * 1e6), "pmb": fx(float(pb_) * 1e6),
+               "cd": fx(math.cos(math.radians(de0))), "cb": fx(math.cos(math.radians(float(bet))))}
+        dist, tt = rng.uniform(1.0, 100.0), rng.uniform(-5000, 5000)
+        r1, d1 = C.motion_in_space(A(ra0), A(de0), dist, 0.0, A(0.0), A(0.0), tt)
+        r2, d2_ = C.motion_in_space(A(ra0), A(de0), dist, rng.uniform(-50, 50), A(pma), A(pmd), 0.0)
+        yield {"k": "mis", "in": [ra0, de0, dist, tt], "u0": F3(_unit(ra0, de0)), "u1": F3(_unit(float(r1), float(d1))), "u2": F3(_unit(float(r2), float(d2_)))}
+        ep = Epoch(2451545.0 + rng.uniform(-36525, 36525))
+        sl = rng.uniform(0, 360)
+        r3, d3 = C.apparent_position(ep, A(ra0), A(de0), A(sl))
+        yield {"k": "app", "in": [ra0, de0, sl], "u0": F3(_unit(ra0, de0)), "u1": F3(_unit(float(r3), float(d3)))}
+
+
+def gen_minorhelio(seed, n):
+    from pymeeus.Epoch import Epoch
+    from pymeeus.Angle import Angle
+    from pymeeus.Minor import Minor
+    import drv_geocentric as DG
+    rng = random.Random("mhel/%s" % seed)
+    cnt = 0
+    while cnt < n:
+        e = rng.choice([0.0, 0.05, 0.3, 0.7, 0.9, 0.97, 0.985, 1.0, rng.uniform(0, 0.98)])
+        q = rng.choice([0.5, 1.0, 2.5, 5.0, rng.uniform(0.2, 20.0)])
+        inc, node, argp = rng.uniform(0, 180), rng.uniform(0, 360), rng.uniform(0, 360)
+        T = 2451545.0 + rng.uniform(-20000, 20000)
+        t = T + rng.uniform(-3, 3) * 365.25
+        if e < 1.0 and q / (1.0 - e) > 500.0:
+            continue
+        cnt += 1
+        ev = {"k": "mhel", "el": [q, e, inc, node, argp, T, t], "ef": e}
+        sol = DG._two_body(q, e, t - T)
+        if sol is None:
+            continue
+        i_, o_, w_ = math.radians(inc), math.radians(node), math.radians(argp)
+        per = [math.cos(o_) * math.cos(w_) - math.sin(o_) * math.sin(w_) * math.cos(i_),
+               math.sin(o_) * math.cos(w_) + math.cos(o_) * math.sin(w_) * math.cos(i_), math.sin(w_) * math.sin(i_)]
+        qer = [-math.cos(o_) * math.sin(w_) - math.sin(o_) * math.cos(w_) * math.cos(i_),
+               -math.sin(o_) * math.sin(w_) + math.cos(o_) * math.cos(w_) * math.cos(i_), math.cos(w_) * math.sin(i_)]
+        H = [sol["xp"] * per[k] + sol["yp"] * qer[k] for k in range(3)]
+        r = math.sqrt(sum(v * v for v in H))
+        try:
+            m = Minor(q, e, Angle(inc), Angle(node), Angle(argp), Epoch(T))
+            lon, lat = m.heliocentric_ecliptical_position(Epoch(t))
+            ev.update(u=F3(_unit(float(lon), float(lat))), h=F3([v / r for v in H]), oc="ok")
+        except Exception as ex:
+            ev.update(u=F3([1.0, 0.0, 0.0]), h=F3([v / r for v in H]), oc=type(ex).__name__)
+        yield ev
